@@ -1062,6 +1062,20 @@ pub fn c04_fixed_tx<S: Src>(_s: &mut S) {
         }
         _ => failures.push("fixture bodies do not load".into()),
     }
+    // the same CONTENT in another spelling (indefinite map, non-minimal fee head): the hash must follow the bytes, not the decoded value
+    let body3 = unhex("bf008001800219000aff");
+    match (FixedTransaction::new_from_body_bytes(&body1), h(&body3)) {
+        (Ok(mut tx), Ok(h3)) => {
+            if tx.set_body(&body3).is_ok() {
+                if tx.raw_body() != body3 { failures.push("set_body with an equal-content body in another spelling does not keep the given bytes".into()); }
+                if tx.transaction_hash().to_bytes() != h3 { failures.push("after set_body with an equal-content body in another spelling the reported hash is still the hash of the old bytes".into()); }
+                let sk = PrivateKey::from_normal_bytes(&[7u8; 32]).unwrap();
+                let _ = tx.sign_and_add_vkey_signature(&sk);
+                if let Some(v) = tx.witness_set().vkeys() { if !sk.to_public().verify(&h3, &v.get(0).signature()) { failures.push("a signature added after such a set_body does not verify against the hash of the current body bytes".into()); } }
+            }
+        }
+        _ => failures.push("fixture bodies do not load".into()),
+    }
     // original bytes survive: non-canonical witness set (legacy untagged native scripts + indefinite redeemer list), then a key signature
     let ws = unhex("a201818200581c11111111111111111111111111111111111111111111111111111111059f840000419182 0101ff".replace(" ", "").as_str());
     match FixedTransaction::new(&body2, &ws, true) {
@@ -1997,6 +2011,33 @@ pub fn c19_return_min_ada<S: Src>(_s: &mut S) {
                 }
             }
             left += 1_000;
+        }
+    }
+    // explicit returns that carry a data hash, an inline datum or a script reference: the minimum is that of the output as given
+    for extra in 0..3u8 {
+        let a = BaseAddress::new(0, &kc(1), &kc(2)).to_address();
+        let mk = |coin: u64| { let mut o = TransactionOutput::new(&a, &Value::new(&bn(coin)));
+            match extra { 0 => o.set_data_hash(&DataHash::from([5u8; 32])), 1 => o.set_plutus_data(&PlutusData::new_bytes(vec![7; 60])), _ => o.set_script_ref(&ScriptRef::new_native_script(&native_script(9))) }; o };
+        let own_min = u64::from(min_ada_for_output(&mk(1_000_000), &dc).unwrap());
+        let mut left = own_min.saturating_sub(400_000);
+        while left <= own_min + 20_000 {
+            let mut tb = TransactionBuilder::new(&cfg);
+            let mut col = TxInputsBuilder::new();
+            col.add_regular_input(&addr(1, 1), &TransactionInput::new(&TransactionHash::from([2u8; 32]), 0), &Value::new(&bn(input_coin))).unwrap();
+            tb.set_collateral(&col);
+            if tb.set_collateral_return_and_total(&mk(left)).is_ok() {
+                let mut b = tb.clone();
+                b.set_fee(&bn(0));
+                if let Ok(body) = b.build() {
+                    if let Some(r) = body.collateral_return() {
+                        accepted += 1;
+                        let need = u64::from(min_ada_for_output(&r, &dc).unwrap());
+                        let have = u64::from(r.amount().coin());
+                        if have < need && failures.len() < 5 { failures.push(format!("return with {}: accepted a collateral return of {} lovelace, its own minimum is {}", ["a data hash", "an inline datum", "a script reference"][extra as usize], have, need)); }
+                    }
+                }
+            }
+            left += 2_000;
         }
     }
     assert!(accepted >= 20, "vacuous: only {} accepted collateral returns", accepted);
